@@ -145,6 +145,7 @@ func (m *Model) Update(msg vaxis.Event) {
 			default:
 				m.content = append(m.content[:m.cursor], m.content[m.cursor+1:]...)
 			}
+			m.resegment()
 		case "Ctrl+k":
 			m.content = m.content[:m.cursor]
 		case "Ctrl+u":
@@ -161,6 +162,7 @@ func (m *Model) Update(msg vaxis.Event) {
 				m.content = append(m.content[:m.cursor-1], m.content[m.cursor:]...)
 			}
 			m.cursor -= 1
+			m.resegment()
 		case "Ctrl+w":
 			if m.cursor == 0 {
 				return
@@ -187,6 +189,7 @@ func (m *Model) Update(msg vaxis.Event) {
 			}
 
 			m.content = append(m.content[:m.cursor], m.content[originalCursor:]...)
+			m.resegment()
 		default:
 			if msg.Modifiers&vaxis.ModCtrl != 0 {
 				return
@@ -208,6 +211,15 @@ func (m *Model) Update(msg vaxis.Event) {
 	if m.cursor < 0 {
 		m.cursor = 0
 	}
+}
+
+// resegment is called after a deletion in the middle of the content. The
+// characters on the two sides of the cursor are neighbours now and can form one
+// cluster (two regional indicators, Hangul jamo, an emoji, a zero width joiner
+// and another emoji): like insert, segment the content again from the cluster
+// before the cursor on
+func (m *Model) resegment() {
+	m.insert("")
 }
 
 // insert puts s at the cursor. s can join its neighbours: a combining mark or
